@@ -93,4 +93,61 @@ PROPS = {
         ],
         explanation="",
     ),
+    "C01": dict(
+        module="SeliumModel.Props.C01",
+        suites=["pubsub", "fanout"],
+        level="proof",
+        rule="pubsub: the real pubsub::Topic driven by a wake-driven executor around scripted mock publisher streams and subscriber sinks (ready/pending/error/silent at every operation), scenarios = systematic variations around stream completion while a flush is pending and registrations behind an idle publisher, plus seeded random histories of enqueue/close/poll; every child call, poll result, waker holder, skipped poll and final got/flushed state compared with the Lean model; "
+             "fanout: the real FanoutMany, exhaustive over 10 fault/pending placements for up to 3 sinks x 4 operation sequences, plus random; distinct = distinct case lines, trivial = scenarios in which no item was accepted / no sink exists",
+        trusted_base=COMMON_TRUST + [
+            "futures::channel::mpsc Receiver: FIFO; Ready(Some) while queued, Ready(None) once closed and drained (re-pollable), Pending otherwise and then holds the waker; send/close_channel fire it",
+            "tokio_stream::StreamMap::poll_next as modelled exactly in Route/StreamMap.lean (random start given by the observed poll order)",
+            "Sink/Stream waker contract: a child that answers Pending holds the task's waker (recorded by the mocks)",
+            "modelled by hand: FanoutMany (sink/fanout_many.rs), pubsub::Topic::poll (topic/pubsub.rs)",
+        ],
+        assumptions=["items are compared by value; the router never inspects them", "cross-topic isolation is the registry theorem of C11"],
+        explanation="",
+    ),
+    "C08": dict(
+        module="SeliumModel.Props.C08",
+        suites=["fanout", "pubsub"],
+        level="proof",
+        rule="same suites as C01 with fault scripts at every (child, operation, position); monitors: only a child that answered Err is dropped, every healthy sink is called exactly once per operation and keeps its items, no panic; (request/reply half: see reqrep suite once claimed)",
+        trusted_base=COMMON_TRUST + [
+            "futures::channel::mpsc Receiver: FIFO; Ready(Some) while queued, Ready(None) once closed and drained (re-pollable), Pending otherwise and then holds the waker; send/close_channel fire it",
+            "tokio_stream::StreamMap::poll_next as modelled exactly in Route/StreamMap.lean (random start given by the observed poll order)",
+            "Sink/Stream waker contract: a child that answers Pending holds the task's waker (recorded by the mocks)",
+            "modelled by hand: FanoutMany (sink/fanout_many.rs), pubsub::Topic::poll (topic/pubsub.rs)",
+        ],
+        assumptions=["pub/sub half proved; the request/reply half is covered by the reqrep suite and theorems when present in Props/C08.lean"],
+        explanation="",
+    ),
+    "C09": dict(
+        module="SeliumModel.Props.C09",
+        suites=["pubsub"],
+        level="proof",
+        rule="pubsub suite under the wake-driven executor: a poll happens only if a waker handed out earlier fired (children that answered Pending fire before the next poll unless scripted silent; enqueue/close fire the channel's waker); monitors: bounded child calls per poll, no registration left queued while asleep for good, nothing accepted left unflushed while asleep without a child's waker",
+        trusted_base=COMMON_TRUST + [
+            "futures::channel::mpsc Receiver: FIFO; Ready(Some) while queued, Ready(None) once closed and drained (re-pollable), Pending otherwise and then holds the waker; send/close_channel fire it",
+            "tokio_stream::StreamMap::poll_next as modelled exactly in Route/StreamMap.lean (random start given by the observed poll order)",
+            "Sink/Stream waker contract: a child that answers Pending holds the task's waker (recorded by the mocks)",
+            "modelled by hand: FanoutMany (sink/fanout_many.rs), pubsub::Topic::poll (topic/pubsub.rs)",
+        ],
+        assumptions=["pub/sub half proved; request/reply half: see Props/C09.lean second part when present"],
+        explanation="",
+    ),
+    "C16": dict(
+        module="SeliumModel.Props.C16",
+        suites=["pubsub"],
+        level="proof",
+        rule="pubsub suite: the Sender returned by Topic::pair() is closed in random and systematic states (idle, item buffered, sockets queued, publisher idle, subscriber pending); monitor: a closed topic with no pending sink finishes, and at completion every live sink has everything flushed",
+        trusted_base=COMMON_TRUST + [
+            "futures::channel::mpsc Receiver: FIFO; Ready(Some) while queued, Ready(None) once closed and drained (re-pollable), Pending otherwise and then holds the waker; send/close_channel fire it",
+            "tokio_stream::StreamMap::poll_next as modelled exactly in Route/StreamMap.lean (random start given by the observed poll order)",
+            "Sink/Stream waker contract: a child that answers Pending holds the task's waker (recorded by the mocks)",
+            "modelled by hand: FanoutMany (sink/fanout_many.rs), pubsub::Topic::poll (topic/pubsub.rs)",
+        ],
+        assumptions=["pub/sub half proved; request/reply half: see Props/C16.lean second part when present"],
+        explanation="",
+    ),
 }
